@@ -65,13 +65,38 @@ def semantics(case, res, tags):
     # T>=0: the only additional restriction.  Among the time-only rows, at a point on the grid's own
     # equality manifold, T<0 must violate a row (FreeTime), T>0 must violate none.
     kind, opts = P.grid_kind_opts(d)
-    if hz in ("Tfree", "bothfree") and not RT.grid_is_labelled(d):
+    minmax = ("min" in opts or "max" in opts)
+    if hz in ("Tfree", "bothfree") and not minmax:
         rows = res.time_rows
         w0 = res.pts[0]
+        tco = list(res.time_coords)
+        eq_idx = [r["idx"] for r in rows if r["kind"] == "eq"]
+
+        def place(Tval):
+            """a point with value(T)=Tval that satisfies the grid's own equality rows (time coordinates only)"""
+            if not RT.grid_is_labelled(d):
+                return core.set_times(nlp, w0, T=Tval)
+            def resid(w_):
+                f_, g_, lb_, ub_ = nlp.eval(w_)
+                q_ = nlp.read(w_, extra=ex)
+                return np.concatenate([[q_["T"].reshape(-1)[0] - Tval], [g_[i] - lb_[i] for i in eq_idx]])
+            r0 = resid(w0)
+            J = np.zeros((r0.size, len(tco)))
+            for c_, i_ in enumerate(tco):
+                w1 = w0.copy(); w1[i_] += 1.0
+                J[:, c_] = resid(w1) - r0
+            dw = np.linalg.lstsq(J, -r0, rcond=None)[0]
+            w_ = w0.copy(); w_[tco] += dw
+            r1 = resid(w_)
+            return w_, [Tval if np.max(np.abs(r1)) < 1e-9 else np.nan]
         for Tval, expect_ok in ((-0.5, False), (0.8, True), (2.7, True)):
-            w, got = core.set_times(nlp, w0, T=Tval)
-            if abs(got[0] - Tval) > 1e-9:
+            w, got = place(Tval)
+            if not (abs(got[0] - Tval) <= 1e-9):
+                if RT.grid_is_labelled(d):
+                    break        # not representable with generic auxiliary values: inconclusive
                 vios.append(dict(sig="value:time:Tcoord", tags=tags, detail="cannot set T")); break
+            if RT.grid_is_labelled(d) and expect_ok:
+                continue         # positivity of every local length is C06's; here only: T<0 must be excluded
             f, g, lb, ub = nlp.eval(w)
             slack = []
             for r in rows:
